@@ -99,13 +99,30 @@ fn components(depth: u8, s: &BTreeSet<u64>, with_vertices: bool) -> Vec<BTreeSet
 }
 
 fn space(sink: &mut Sink, rng: &mut Rng, thorough: bool) {
-  let n = if thorough { 2500 } else { 220 };
+  let n = if thorough { 4000 } else { 600 };
   for i in 0..n {
-    let depth = (i % 3) as u8; // depths 0, 1, 2: 12 / 48 / 192 cells
+    let depth = ((i / 10 + i) % 3) as u8; // depths 0, 1, 2: 12 / 48 / 192 cells
     let ncell = 12u64 << (2 * depth);
     let all: BTreeSet<u64> = (0..ncell).collect();
     // cell sets: sparse, dense, blobs around base-cell corners and poles, empty, full
-    let s: BTreeSet<u64> = match i % 7 {
+    // mixed-depth MOCs: whole coarser cells (all 4^k descendants) plus a few isolated deepest cells, so that
+    // the hierarchical view holds cells of several depths (flood fill across depths)
+    let mixed = |rng: &mut Rng, num: u64, den: u64, extra: u64| -> BTreeSet<u64> {
+      let mut b = BTreeSet::new();
+      if depth >= 1 {
+        for c in 0..(ncell >> 2) { if rng.chance(num, den) { for k in 0..4 { b.insert((c << 2) | k); } } }
+      }
+      if depth >= 2 && rng.chance(1, 3) {
+        let c = rng.below(ncell >> 4);
+        for k in 0..16 { b.insert((c << 4) | k); }
+      }
+      for _ in 0..extra { b.insert(rng.below(ncell)); }
+      b
+    };
+    let s: BTreeSet<u64> = match i % 10 {
+      7 => mixed(rng, 1, 8, 0),
+      8 => { let e = rng.below(4); mixed(rng, 1, 4, e) }
+      9 => { let e = 1 + rng.below(6); mixed(rng, 1, 12, e) }
       0 => (0..ncell).filter(|_| rng.chance(1, 6)).collect(),
       1 => (0..ncell).filter(|_| rng.chance(4, 5)).collect(),
       2 => {
@@ -122,6 +139,7 @@ fn space(sink: &mut Sink, rng: &mut Rng, thorough: bool) {
       _ => (0..ncell).filter(|_| rng.chance(1, 2)).collect(),
     };
     let m = moc_of_cells(depth, &s);
+    if (7..=9).contains(&(i % 10)) { sink.count("space-shape:mixed-depth"); }
     let tag = format!("space depth={} cells={:?}", depth, s.iter().take(40).collect::<Vec<_>>());
     sink.count(&format!("space-depth:{}", depth));
     let compl: BTreeSet<u64> = all.difference(&s).cloned().collect();
